@@ -222,6 +222,10 @@ func (P *Prog) subsetLoopIn(fn *ssa.Function, own ssa.Value, sinks []*ssa.BasicB
 			continue
 		}
 		recv, p, arg, ok := authorizeCall(c)
+		if ok && recv != own {
+			// (the requester carried in a field of a local parameter object)
+			recv = stripConv(resolveLocal(stripConv(recv)))
+		}
 		if !ok || p >= 0 || recv != own {
 			continue
 		}
